@@ -42,8 +42,8 @@ def prec(e):
 
 # ----------------------------------------------------------------------------------------------
 # Constants and their spellings
-INT_CONSTS = [0, 1, 2, 3, 7, 10, 255, 1000, 10 ** 20]
-FLOAT_CONSTS = [0.5, 2.0, 1e10, 1.5e-3, 0.0, 3.25]
+INT_CONSTS = [0, 1, 2, 3, 7, 10, 255, 1000, 10 ** 20, 2 ** 64, 2 ** 1024, 10 ** 400]
+FLOAT_CONSTS = [0.5, 2.0, 1e10, 1.5e-3, 0.0, 3.25, 1e308, 5e-324]
 STR_CONSTS = ['a', 'b', '', 'x y', "it's", 'say "hi"', 'é', '$a', '# no comment', 'rec.a', 'A', 'abc', 'line\nbreak',
               'back\\slash', '%s', '%s-%s', 'Seattle', 'owners', '☃', 'tab\there']
 NAMES = ['rec', 'user', 'newRec', 'choice', 'f', 'g', 'undefined_name', 'OWNER']
